@@ -316,7 +316,7 @@ func (b *rb) genXattrs() [][2]string {
 }
 
 var oddNames = []string{"with space", "quo'te", "dq\"x", "st*ar", "\xc3\xbcml", ".hidden", "a", "a.b", "a-b",
-	"a b", "a0", "A", "#hash", "semi;colon", "dollar$x", "back\\slash", "tab\there", "q?mark", "br[ack]et", "-dash", "eq=ual", "x -y"}
+	"a b", "a0", "A", "#hash", "semi;colon", "dollar$x", "back\\slash", "tab\there", "q?mark", "br[ack]et", "-dash", "eq=ual", "x -y", "trail ", " lead", "two  blanks", "trail2  "}
 
 func (b *rb) oddName() string { return oddNames[b.g.Intn(len(oddNames))] }
 
